@@ -13,7 +13,7 @@ CHECKS["C13"] = cfg(
     "C13",
     technique="runtime monitoring: differential oracle (own civil-date arithmetic) over boundary grid x all 2879 offsets + seeded random instants; panic monitor",
     level_text="Every RFC 3339 string rendered from the boundary date-times x every UTC offset x fraction lengths, plus seeded random instants, unix seconds and durations, is run through the real Timestamp API and judged against the harness's integer reference; a panic anywhere is a violation. Exploration, not proof: held on the executions listed in the evidence.",
-    min={"quick": {"parse_accepted": 50000, "arith_checked": 1000, "from_unix_accepted": 1000, "nontrivial": 20},
+    min={"quick": {"parse_accepted": 50000, "arith_checked": 1000, "from_unix_accepted": 1000, "order_checked": 3000000, "order_boundary_blocks_leap_year": 2000, "nontrivial": 20},
          "thorough": {"parse_accepted": 500000, "arith_checked": 10000, "nontrivial": 20}},
     assumptions=["reference civil-date arithmetic (Howard Hinnant's days_from_civil) in the harness is correct",
                  "second=60 may be rejected or mapped to :59/:60"],
@@ -127,9 +127,9 @@ CHECKS["C03"] = cfg(
     "C03",
     technique="runtime monitoring: decision-table oracle over harness-constructed presentation tokens (own keys, own JWT assembler); accept <=> all conditions",
     level_text="Presentation tokens are built by the harness against a holder document with a general-purpose, an embedded and a foreign-DID method; each of the 10 conditions (signature, kid/method-id resolution as full id/'#fragment'/bare fragment, scope, nonce, iss == document id, expiry and issuance bounds at +-1 s with nbf-else-iat, vp.id/vp.holder consistency, numeric dates in range) is true or false by construction. validate() must accept exactly when all hold, and on acceptance return the presentation, aud, dates, custom claims and header that were signed.",
-    min={"quick": {"dangling_reference_probes": 200, "fractional_date_probes": 40, "fractional_date_cases": 200, "accepted": 600, "rejected": 1500, "rejected:signature": 150, "rejected:iss-equals-holder-document": 150, "rejected:scope": 80,
+    min={"quick": {"nonce_pair_probes": 1900, "nonce_pair_probes:equal-special": 40, "rejected:nonce": 1500, "nonce_cases:invisible-on-signed": 40, "nonce_cases:invisible-on-expected": 40, "nonce_cases:eq-special": 150, "dangling_reference_probes": 200, "fractional_date_probes": 40, "fractional_date_cases": 200, "accepted": 600, "rejected": 1500, "rejected:signature": 150, "rejected:iss-equals-holder-document": 150, "rejected:scope": 80,
                    "rejected:vp.id-consistent": 100, "rejected:numeric-date-in-range": 100, "distinct:condition_vectors": 60},
-         "thorough": {"accepted": 200000, "rejected": 500000, "distinct:condition_vectors": 120}},
+         "thorough": {"nonce_pair_probes": 1900, "nonce_pair_probes:equal-special": 40, "rejected:nonce": 50000, "accepted": 200000, "rejected": 500000, "distinct:condition_vectors": 120}},
     assumptions=["validation bounds are always explicit (no wall clock)",
                  "a vp.id present while jti is absent is not judged (latitude)"],
 )
@@ -138,9 +138,9 @@ CHECKS["C16"] = cfg(
     "C16",
     technique="runtime monitoring: decision-table oracle over harness-assembled SD-JWTs, disclosures (own SHA-256 digests) and KB-JWTs; accept <=> all conditions; panic monitor",
     level_text="SD-JWT credentials (0-4 concealed claims + nested concealed claim, decoys, every disclosed subset, forged/foreign/duplicated/garbage/reordered disclosures, _sd_alg forms) and KB-JWTs (typ, kid/method id, scope, signature by another key, sd_hash over other concatenations, nonce, aud, iat at the inclusive window edges and a day either side of now) are assembled by the harness so each condition is true or false by construction; validate_credential / validate_key_binding_jwt must accept exactly when all hold, return the original credential with exactly the disclosed claims restored, and never panic.",
-    min={"quick": {"kb_fixed_sweep_cases": 170, "kb_presentation_altered_after_signing": 100, "kb_rejected:empty-expectation-not-met": 20, "kb_via_wire_text": 200, "cred_accepted": 300, "cred_rejected": 600, "kb_accepted": 200, "kb_rejected": 700, "kb_rejected:signature": 100, "kb_rejected:sd_hash": 60,
+    min={"quick": {"kb_typ_near_miss_cases": 250, "kb_typ_near_miss_alone_rejected": 220, "distinct:typ_near_miss_classes": 12, "distinct:typ_near_miss_values": 100, "kb_fixed_sweep_cases": 170, "kb_presentation_altered_after_signing": 100, "kb_rejected:empty-expectation-not-met": 20, "kb_via_wire_text": 200, "cred_accepted": 300, "cred_rejected": 600, "kb_accepted": 200, "kb_rejected": 700, "kb_rejected:signature": 100, "kb_rejected:sd_hash": 60,
                    "cred_rejected:disclosure-bound-to-signed-digest": 60, "two_issuers_accepted": 40, "two_issuers_rejected": 60, "distinct:condition_vectors": 60},
-         "thorough": {"cred_accepted": 6000, "kb_accepted": 4000, "kb_rejected": 15000, "distinct:condition_vectors": 70}},
+         "thorough": {"kb_typ_near_miss_cases": 250, "kb_typ_near_miss_alone_rejected": 220, "distinct:typ_near_miss_classes": 12, "cred_accepted": 6000, "kb_accepted": 4000, "kb_rejected": 15000, "distinct:condition_vectors": 70}},
     assumptions=["a duplicated disclosure may be refused or accepted (latitude)",
                  "the typ spelling is judged by one dedicated signature (known finding: the dependency's constant is ' kb+jwt'); all other KB scenarios treat the library's own constant and 'kb+jwt' as the right type",
                  "the 'not in the future' branch (latest_issuance_date unset) is tested a full day either side of the wall clock, and 5 s ahead; the 5 s case is judged only when the signed iat is still ahead of the wall clock after the call returned"],
@@ -149,12 +149,18 @@ CHECKS["C16"] = cfg(
 CHECKS["C06"] = cfg(
     "C06",
     technique="runtime monitoring: BTreeSet<u32> reference model over bitmap/service/document/validator executions; legacy form built by the harness; zlib block-type classification of every produced stream",
-    level_text="Index sets of every shape (boundaries, dense, runs, sparse, all 65536 containers, up to 1e5 elements; stored, fixed and dynamic deflate blocks all observed) are encoded to a service and decoded back through the real code and compared with a set model, in the modern and the harness-built legacy form; revoke/unrevoke batch histories on CoreDocument/IotaDocument must change exactly the batch indices and nothing else in the document; check_status must report Revoked iff member.",
-    min={"quick": {"fault_histories": 150, "fault_ops": 1500, "fault_ops_rejected": 1000, "fault_ops_other_thread": 200, "after_fault_reads_ok": 1000, "after_fault_batches": 100,
+    level_text="Index sets of every shape (boundaries, dense, runs, sparse, all 65536 containers, up to 1e5 elements; stored, fixed and dynamic deflate blocks all observed) are encoded to a service and decoded back through the real code and compared with a set model, in the modern and the harness-built legacy form; revoke/unrevoke batch histories on CoreDocument/IotaDocument must change exactly the batch indices and nothing else in the document; check_status must report Revoked iff member. A second stage (harness/vhs, bin c06j) compiles identity_credential with the non-default jpt-bbs-plus feature and drives the RevocationTimeframe2024 status checks of JptCredentialValidatorUtils (check_revocation_*, check_timeframes_* and the combined function) over issuer documents with several bitmap services, member / non-member indices, validity windows and query instants before / at / inside / after the window (and now) in every StatusCheck mode: Revoked must be reported exactly for members of the addressed service whatever the instant, OutsideTimeframe exactly for non-members strictly outside the window.",
+    min={"quick": {"jpt_revoked_reported": 10000, "jpt_not_revoked_ok": 12000, "jpt_combined_revoked_outside_window": 45000, "jpt_combined_member_inside_window": 30000, "jpt_combined_nonmember_checks": 120000, "jpt_timeframe_outside": 150000, "jpt_timeframe_inside_ok": 100000, "jpt_skipall": 250000, "jpt_status_absent_ok": 15000, "jpt_probes_with_namesake": 3500, "jpt_boundary_index_member": 1800, "jpt_unsupported_skipped": 4000, "jpt_no_service_error": 8000,
+                   "fault_histories": 150, "fault_ops": 1500, "fault_ops_rejected": 1000, "fault_ops_other_thread": 200, "after_fault_reads_ok": 1000, "after_fault_batches": 100,
                    "namesake_cases": 120, "namesake_targets_shadowed": 150, "namesake_reads_ok": 1000, "namesake_status_rounds": 600, "namesake_batches": 150,
                    "sets": 2000, "roundtrip_ok": 500, "legacy_ok": 500, "block_stored": 50, "block_fixed": 200, "block_dynamic": 300,
                    "histories": 200, "batches": 150, "check_status_revoked": 2000, "check_status_not_revoked": 5000, "mismatch_rejected": 1000, "nontrivial": 500},
-         "thorough": {"sets": 50000, "roundtrip_ok": 10000, "legacy_ok": 10000, "block_stored": 1000, "block_dynamic": 5000, "histories": 6000, "batches": 5000}},
+         "thorough": {"jpt_revoked_reported": 250000, "jpt_not_revoked_ok": 300000, "jpt_combined_revoked_outside_window": 1000000, "jpt_combined_member_inside_window": 700000, "jpt_timeframe_outside": 3500000, "jpt_skipall": 6000000,
+                      "sets": 50000, "roundtrip_ok": 10000, "legacy_ok": 10000, "block_stored": 1000, "block_dynamic": 5000, "histories": 6000, "batches": 5000}},
+    quick=[{"flavour": "checked", "shards": 8, "timeout": 600},
+           {"flavour": "checked", "package": "vhs", "bin": "c06j", "shards": 8, "timeout": 600}],
+    thorough=[{"flavour": "checked", "shards": 16, "timeout": 3000},
+              {"flavour": "checked", "package": "vhs", "bin": "c06j", "shards": 16, "timeout": 3000}],
     assumptions=["endpoints produced by other zlib encoders are outside the statement"],
 )
 
@@ -194,10 +200,10 @@ CHECKS["C12"] = cfg(
     "C12", exhaustive=True,
     technique="runtime monitoring: bit-vector reference model; exhaustive (byte value x bit offset x written value) single-write table; random write histories; independent gzip/base64 codec; credential-level and validator oracles",
     level_text="Every (byte value, offset, written value) single write at several byte positions, random 200-operation histories over every size class and credential-level scenarios for both purposes are executed on the real StatusList2021 / StatusList2021Credential and compared with a harness bit-vector: read = last write, no other entry changes (checked through get, a full sweep and the independently decoded encodedList), out-of-range => Err never panic, encode/decode identity, one-way revocation vs reversible suspension, and the validator's verdict.",
-    min={"quick": {"huge_lists": 60, "huge_set_ok": 2000, "huge_set_ok_index_ge_2p32": 300, "huge_related_entries_read": 60000, "table_cases": 12000, "set_false_with_set_neighbours": 5000, "oob_probes": 2000, "roundtrip_identical": 12000, "list_credentials": 150,
+    min={"quick": {"foreign_scenarios": 100, "foreign_checks": 1000, "foreign_checks_bits_differ": 400, "huge_lists": 60, "huge_set_ok": 2000, "huge_set_ok_index_ge_2p32": 300, "huge_related_entries_read": 60000, "table_cases": 12000, "set_false_with_set_neighbours": 5000, "oob_probes": 2000, "roundtrip_identical": 12000, "list_credentials": 150,
                    "cred_writes_ok": 600, "cred_unrevoke_attempts": 80, "cred_unsuspend_ok": 80, "status_matching": 300, "status_revoked": 100, "status_suspended": 100,
                    "status_oob": 5, "nontrivial": 12300},
-         "thorough": {"table_cases": 40000, "set_false_with_set_neighbours": 100000, "oob_probes": 50000, "status_matching": 9000, "nontrivial": 41000}},
+         "thorough": {"foreign_scenarios": 2500, "foreign_checks": 20000, "foreign_checks_bits_differ": 8000, "table_cases": 40000, "set_false_with_set_neighbours": 100000, "oob_probes": 50000, "status_matching": 9000, "nontrivial": 41000}},
     thorough=[{"flavour": "checked", "shards": 16, "timeout": 3000},
               {"flavour": "miri", "tier": "quick", "shards": 16, "timeout": 14400, "args": {"scale": 1}}],
     assumptions=["MSB-first bit order as in the W3C draft", "any Err variant is accepted where an error is required",
